@@ -326,6 +326,7 @@ func propC23(c *Check) {
 	ruleR23_3(c)
 	ruleR23_4(c)
 	ruleR16_2(c)
+	ruleR29_4(c) // only encrypted tables read their index through the id-keyed cache: it is cleared when ids restart
 }
 
 // ---- C27 ----
